@@ -298,7 +298,20 @@ def r3(ctx):
     # order of the three reads / writes
     for q, want_order in (("http_server:readFrameFactory.readFrame", ["readHeader", "readDataHeader", "readData"]), ("http_server:writeFrameFactory.writeFrame", ["writeHeader", "writeDataHeader", "writeData"])):
         f = ctx.fn(q)
-        order = [c.func.attr for c in walk_own(f.node) if isinstance(c, ast.Call) and isinstance(c.func, ast.Attribute) and c.func.attr in want_order]
+        # (through a method of the frame class that does the three steps, if the factory delegates to one)
+        def steps(fn, depth=0):
+            out = []
+            for c in walk_own(fn.node):
+                if not (isinstance(c, ast.Call) and isinstance(c.func, ast.Attribute)):
+                    continue
+                if c.func.attr in want_order:
+                    out.append(c.func.attr)
+                elif depth < 2:
+                    cands = [m for m in ctx.repo.by_name_methods.get(c.func.attr, []) if m.cls is not None and m.cls.name == "WebSocketFrame"]
+                    if len(cands) == 1 and cands[0] is not fn:
+                        out += steps(cands[0], depth + 1)
+            return out
+        order = steps(f)
         ctx.check(order == want_order, "C18.R3", f, "frame parts are processed in wire order", witness=order)
     for w, s in (("writeHeader", "serializeHeader"), ("writeDataHeader", "serializeDataHeader")):
         f = ctx.fn(F + w)
@@ -350,7 +363,9 @@ def r4(ctx):
     ctx.check(bool(pays) and all(p in {u % tx.params[0] for u in utf8} for p in pays), "C18.R4", tx, "text payload is UTF-8", witness=pays)
     init = ctx.fn(F + "__init__")
     d = {norm(s.targets[0]): norm(s.value) for s in walk_own(init.node) if isinstance(s, ast.Assign)}
-    ctx.check(d.get("self.flags.mask") == "0" and d.get("self.payload_length") == "0", "C18.R4", init, "a new frame is unmasked and empty")
+    # (the flag record may be filled through a local and attached afterwards)
+    holder = d.get("self.flags") if "self.flags.mask" not in d and (d.get("self.flags") or "").isidentifier() else "self.flags"
+    ctx.check(d.get("%s.mask" % holder) == "0" and d.get("self.payload_length") == "0", "C18.R4", init, "a new frame is unmasked and empty")
 
 
 def r5(ctx):
